@@ -94,6 +94,8 @@ pub fn generate(tier: &str, _rng: &mut Rng) -> (Vec<String>, bool) {
             }
         }
     }
+    // the mask must not depend on the scale of the data
+    crate::cases::add_scaled(&mut out, 5, &[12, 13, 14, 15, 40], &["xs", "ys"]);
     (out, true)
 }
 
